@@ -10,7 +10,10 @@
      p.Stat.Path = path                                           -- an edit of the path does not survive
      if !metaOnly && fileCanRequestData(mode) { r.files[path] = i }
      i++
-     orderValidator / hlValidator .HandleChange                   -- see [recv_accepts]
+     orderValidator.HandleChange                                  -- every handled STAT
+     if !metaOnly { hlValidator.HandleChange }                    -- only entries that are forwarded
+                                                                  (repair of the C03 finding; see
+                                                                  [first_reject_d], [recv_accepts])
      parent := filepath.Dir(path)
      for { last, ok := peek(); if !ok || parent == last.path {break}; pop() }
      if metaOnly { if isDir { push(cp) }; continue }              -- push only when NOT forwarded (fix F12)
@@ -121,10 +124,6 @@ End MetaRecv.
 Definition valid_stream (l : list stat) : Prop := run_validator (map vitem_of l) = None.
 Definition valid_stream_b (l : list stat) : bool :=
   match run_validator (map vitem_of l) with None => true | Some _ => false end.
-Definition recv_accepts (stats : list stat) : bool :=
-  valid_stream_b (recv_stream stats)
-  && match hardlink_check (recv_stream stats) with None => true | Some _ => false end.
-
 (* an announced entry depends on the skipped listing-name entry: it lies below it, or is a
    hard link to it.  The receiver never shows the skipped entry to its validators. *)
 Definition listing_dependents (stats : list stat) : bool :=
@@ -215,4 +214,45 @@ Definition rw_of (k : N) (dec : bool) (s : stat) : stat :=
   | 5 => let t := rw_norm s in if dec then rw_chmod t else t
   | 6 => set_path (rw_norm s) [120]
   | _ => s
+  end.
+
+(* ---------- the receiver's validators, in the order of the loop ----------
+   Per handled STAT (decision d = selected, s = the stat as the selector left it): the order
+   validator always; the hard-link validator ONLY if the entry is forwarded (!metaOnly): an
+   entry that is only recorded in the listing never reaches the disk, so it cannot be the source
+   of a hard link that does (the pending parents replayed later are directories, which the
+   hard-link validator skips anyway).  Result: index (among the handled STATs) of the first
+   rejected entry — Receive returns the error there, BEFORE the replay / w.update of that
+   entry —, None = all accepted. *)
+Fixpoint first_reject_d (stk : list ventry) (sp : list bytes) (l : list (bool * stat)) (i : nat) : option nat :=
+  match l with
+  | [] => None
+  | (d, s) :: r =>
+    match vstep stk (vitem_of s) with
+    | None => Some i
+    | Some stk' =>
+      if d then match hl_step sp s with
+                | None => Some i
+                | Some sp' => first_reject_d stk' sp' r (S i)
+                end
+      else first_reject_d stk' sp r (S i)
+    end
+  end.
+Definition first_reject (sel : stat -> bool) (l : list stat) : option nat :=
+  first_reject_d vinit [] (map (fun s => (sel s, s)) l) 0.
+Definition first_reject_rw (sel : stat -> bool) (rw : stat -> stat) (l : list stat) : option nat :=
+  first_reject_d vinit [] (map (fun s => (sel s, seen rw s)) l) 0.
+
+(* "the real receiver accepts" *)
+Definition recv_accepts (sel : stat -> bool) (stats : list stat) : bool :=
+  match first_reject sel (recv_stream stats) with None => true | Some _ => false end.
+Definition recv_accepts_rw (sel : stat -> bool) (rw : stat -> stat) (stats : list stat) : bool :=
+  match first_reject_rw sel rw (recv_stream stats) with None => true | Some _ => false end.
+
+(* what has been handed to the diff / writer when the receive loop ends: everything needed, or —
+   on a rejection at index k — what the first k handled STATs caused *)
+Definition applied (sel : stat -> bool) (l : list stat) : list stat :=
+  match first_reject sel l with
+  | None => r_forwarded (mrun sel 0 [] l)
+  | Some k => r_forwarded (mrun sel 0 [] (firstn k l))
   end.
